@@ -250,6 +250,11 @@ func (di *DescriptionBlock) Unpack(data []byte) (n uint, err error) {
 			return 0, err
 		}
 
+		// A DIB covers at least its own two header octets and must fit into the data.
+		if length < 2 || n+uint(length) > uint(len(data)) {
+			return 0, errors.New("invalid description block length")
+		}
+
 		switch ty {
 		case DescriptionTypeDeviceInfo:
 			_, err = di.DeviceHardware.Unpack(data[n : n+uint(length)])
@@ -271,7 +276,7 @@ func (di *DescriptionBlock) Unpack(data []byte) (n uint, err error) {
 
 			// known DIBs without data will be silently ignored.
 			if length > 2 {
-				_, err = u.Unpack(data[n+2 : n+uint(length)-2])
+				_, err = u.Unpack(data[n+2 : n+uint(length)])
 				if err != nil {
 					return 0, err
 				}
